@@ -206,8 +206,25 @@ pub fn work_c10(ctx: &Ctx, rep: &mut Report) {
         }
         // then chains of resizes interleaved with more input
         let nres = r.range(1, 6);
+        let (mut pc, mut pr) = (h.cols, h.rows);
         for _ in 0..nres {
             let (c, rw) = if r.chance(1, 3) { (r.range(1, maxw), r.range(1, maxh)) } else { (r.range(1, 14), r.range(1, 8)) };
+            if r.chance(1, 4) {
+                // a completed excursion to the alternate screen at unchanged size belongs to "every
+                // reachable primary-screen content": whatever it leaves behind (flags, caches) must not
+                // change how the primary is re-wrapped afterwards
+                let mut s = String::from(*r.pick(&["\x1b[?1047h", "\x1b[?1049h", "\x1b[?47h"]));
+                for _ in 0..r.range(0, 3) {
+                    let t = r.weighted(&prof.w);
+                    s.push_str(&Gen::new(&mut r, pc, pr).token(t));
+                }
+                s.push('\x18');
+                s.push_str(*r.pick(&["\x1b[?1047l", "\x1b[?1049l", "\x1b[?47l"]));
+                h.calls.push(Call::FeedStr(s));
+                rep.count("histories_with_a_completed_alternate_screen_excursion_before_a_resize", 1);
+            }
+            pc = c;
+            pr = rw;
             h.calls.push(Call::Resize(c, rw));
             if r.chance(1, 2) {
                 let mut s = String::new();
@@ -802,6 +819,22 @@ pub fn work_c16(ctx: &Ctx, rep: &mut Report) {
         let mut r = Rng::derive(ctx.seed, &[0xC16, 1, u as u64]);
         let mut h = gen::history(&mut r, &pprof);
         h.calls.push(Call::FeedStr("\x18".into()));
+        if r.chance(1, 5) {
+            // corner states random input rarely leaves the primary in at the moment of entry: cursor
+            // outside the scroll region with origin mode on (only a restore gets it there) or off,
+            // wrap pending, wrap pending with auto-wrap off
+            let (c, rw) = h.calls.iter().rev().find_map(|x| if let Call::Resize(c, rw) = x { Some((*c, *rw)) } else { None }).unwrap_or((h.cols, h.rows));
+            let corner = match r.below(6) {
+                0 => format!("\x1b[r\x1b[?6h\x1b[{};2H\x1b7\x1b[2;3r\x1b8", rw),
+                1 => "\x1b[r\x1b[?6h\x1b[1;2H\x1b7\x1b[2;3r\x1b8".to_string(),
+                2 => format!("\x1b[?6l\x1b[2;3r\x1b[{};1H", rw),
+                3 => format!("\x1b[?7h\x1b[2;{}HX", c),
+                4 => format!("\x1b[?7h\x1b[1;{}HX\x1b[?7l", c),
+                _ => format!("\x1b[?6h\x1b[1;{}r\x1b[{};1H\x1b7\x1b[2;{}r\x1b8", rw.saturating_sub(1).max(2), rw, rw),
+            };
+            h.calls.push(Call::FeedStr(corner));
+            rep.count("excursions_entered_from_a_corner_state", 1);
+        }
         let enter_at = h.calls.len();
         let m1 = *r.pick(&["47", "1047", "1049"]);
         h.calls.push(Call::FeedStr(format!("\x1b[?{}h", m1)));
